@@ -24,9 +24,11 @@ EXTENDS Locks, Json
 
 Trace == ndJsonDeserialize("locks.ndjson")
 
-VARIABLES l, viol, wdone
-tvars == <<vars, l, viol, wdone>>
-tview == <<lk, fds, hpc, belief, hres, hseen, wst, wpc, fver, writing, l, viol, wdone>>
+VARIABLES l, viol, wdone,
+          att        \* att[h]: the operation of handle h that is under way has made its lock attempt (a refusal reported
+                     \* for an operation must be the outcome of ITS attempt, not the one remembered from an earlier operation)
+tvars == <<vars, l, viol, wdone, att>>
+tview == <<lk, fds, hpc, belief, hres, hseen, wst, wpc, fver, writing, l, viol, wdone, att>>
 
 TraceProcSep  == [h \in Handles |-> CASE h = "h1" -> "p1" [] h = "h2" -> "p2" [] OTHER -> "p3"]
 TraceProcSame == [h \in Handles |-> CASE h = "h1" -> "p1" [] h = "h2" -> "p1" [] OTHER -> "p2"]
@@ -42,9 +44,12 @@ Silent ==
     /\ l <= Len(Trace)
     /\ Trace[l].ev # "reset"
     /\ \/ /\ Actor \in Handles
-          /\ OsOpen(Actor) \/ LockPendingR(Actor) \/ LockSharedR(Actor) \/ UnlockPending(Actor) \/ CallbackExit(Actor)
-             \/ PageRead(Actor)        \* page reads are not always recorded one by one
+          /\ \/ (LockPendingR(Actor) /\ ~att[Actor] /\ att' = [att EXCEPT ![Actor] = TRUE])
+             \/ /\ OsOpen(Actor) \/ LockSharedR(Actor) \/ UnlockPending(Actor) \/ CallbackExit(Actor)
+                   \/ PageRead(Actor)        \* page reads are not always recorded one by one
+                /\ UNCHANGED att
        \/ /\ Actor \in Writers
+          /\ UNCHANGED att
           /\ WPendR(Actor) \/ WShrdR(Actor) \/ WUnpend(Actor) \/ WReserve(Actor) \/ WPendW(Actor)
              \/ WExclusive(Actor) \/ WWrite(Actor) \/ WCommit(Actor) \/ WRollback(Actor) \/ WUnlock(Actor)
           /\ fver' <= Trace[l].fver          \* no more commits than the connection reported
@@ -66,7 +71,7 @@ Consume ==
        IN  /\ CASE e.ev = "open"      -> MmapOpenClosesSecondFd(e.who)
                 [] e.ev = "rlock_ok"  -> hpc[e.who] = "locked" /\ hres[e.who] = "ok" /\ UNCHANGED vars
                 \* C07: a refused lock means an error and no rows -- and nothing was read without the lock
-                [] e.ev = "rlock_err" -> /\ hpc[e.who] = "idle" /\ hres[e.who] = "err" /\ UNCHANGED vars
+                [] e.ev = "rlock_err" -> /\ hpc[e.who] = "idle" /\ hres[e.who] = "err" /\ att[e.who] /\ UNCHANGED vars
                                          /\ e.rows = 0 /\ e.haserr /\ e.reads = 0
                 [] e.ev = "page"      -> PageRead(e.who)
                 [] e.ev = "cb"        -> CallbackEnter(e.who)
@@ -83,6 +88,7 @@ Consume ==
                                          /\ UNCHANGED <<fds, hpc, belief, hres, hseen, nops, wst, wpc, fver, writing, last>>
                 [] e.ev = "w_rest"    -> wpc[e.who] \in {"idle"} /\ fver = e.fver /\ UNCHANGED vars
                 [] OTHER -> FALSE
+           /\ att' = IF e.ev \in {"done", "rlock_err"} THEN [att EXCEPT ![e.who] = FALSE] ELSE att
            /\ e.ev = "w_rest" => wdone' = [wdone EXCEPT ![e.who] = e.fver]
            /\ e.ev # "w_rest" => UNCHANGED wdone
            /\ viol' = IF ObservedViolations(e) = {} THEN viol
@@ -105,9 +111,10 @@ Reset ==
     /\ wpc' = [w \in Writers |-> "idle"]
     /\ fver' = 0 /\ writing' = FALSE /\ last' = <<"Reset">>
     /\ wdone' = [w \in Writers |-> 0]
+    /\ att' = [h \in Handles |-> FALSE]
     /\ l' = l + 1 /\ UNCHANGED viol
 
-TInit == Init /\ l = 1 /\ viol = <<>> /\ wdone = [w \in Writers |-> 0]
+TInit == Init /\ l = 1 /\ viol = <<>> /\ wdone = [w \in Writers |-> 0] /\ att = [h \in Handles |-> FALSE]
 TNext == Silent \/ Consume \/ Reset
 TSpec == TInit /\ [][TNext]_tvars
 
